@@ -28,11 +28,13 @@ CHECKS = {
     'C17': ('TLA+ PairTrace.tla: the same TLC-generated drivers executed under five BuildHashers and a shuffled heap; TLC checks the traces are equal record by record', '4 C17', 'model_checking', ''),
     'C11': ('TLA+ TinyLFU.tla (abstract exact-count estimator + colliding-cell model checked by TLC for every collision structure) + TLC trace validation of the real TinyLFU (std and no_std builds): per-step observation relation and exact-count monitor', '4 C11', 'model_checking', ''),
     'C14': ('TLA+ Iter.tla cursor machine (TLC: every word over {next,next_back}) + IterTrace.tla: TLC recomputes the specification list by folding the policy spec over the path and validates every logged iterator run (12 families x lists x words) in every reachable state', '4 C14', 'model_checking', ''),
+    'C18': ('fault enumeration driven by TLC-generated behaviours: for every reachable state x operation, the i-th call into user code of every kind (Hash, Eq, Clone, Drop, hasher, callback, KeyHasher) is made to panic for every i; TLC validates the TLA+ predicate C18Event (no double drop, nothing released or freed still reachable, no monitor anomaly) on the faulting call, on follow-up operations and on the final drop', '4 C18', 'fault_enumeration',
+            'Every injection point (kind x ordinal of the user-code call) of every operation from every explored state is exercised once; the TLA+ ownership predicate is evaluated by TLC on every recorded event. Exhaustive over injection points per explored (state, operation); states are the first N of the TLC closure in the quick tier.'),
     'C20': ('TLA+ SampledLFU.tla (used defined as the sum of costs) + TLC closure + TLC trace validation of every transition and of fill_sample', '4 C20', 'model_checking', ''),
     'C15': ('TLA+ RawLRU.tla callback sequence + TLC trace validation (PROP=C15)', '4 C15', 'model_checking', ''),
 }
 NOT_YET = {}
-for p in ['C18', 'C19']:
+for p in ['C19']:
     NOT_YET[p] = 'check under construction in this round (specification module and harness sub-command not committed yet); planned per DESIGN.md section 4'
 
 def main():
